@@ -254,7 +254,7 @@ class Env:
         """case: dict(settings, caps, state, via, offline, devid) -> observation dict"""
         import sys
         ctx, cli, L = self.ctx, self.cli, self.L
-        ac = idealac.IdealAC(ctx.model, ctx.rng, case.get("state"))
+        ac = idealac.IdealAC(ctx.model, ctx.rng, case.get("state"), caps=case.get("ac_caps"))
         ac.silent = bool(case.get("offline"))
         before = ac.snapshot()
         counter0 = ctx.rng.randrange(0, 300)
@@ -424,6 +424,11 @@ def gen_cases(ctx, AC, props):
         add("capabilities", s, caps=True)
     for n in rng.sample(settable, min(len(settable), ctx.n(10, 40))):
         add("capabilities", [f"{n}={valid_value(rng, AC, props[n][1])}"], caps=True)
+    # --capabilities on an appliance WITHOUT custom fan speeds that reports a non-preset speed: the speed is not named, so it stays
+    nocustom = [(0x0210, [7])] + [c for c in idealac.CAPS if c[0] != 0x0210]
+    for fan in (1, 35, 50, 99, 101):
+        for s in (["power_state=1"], ["eco=1", "beep=0"], ["operational_mode=cool"]):
+            add("capabilities-no-custom-fan", s, caps=True, ac_caps=nocustom, state={"fan": fan})
     # which runs go through the simulated network: every k-th in quick, all in thorough
     step = 1 if ctx.deep else max(1, len(cases) // ctx.n(150, 100000))
     for i, c in enumerate(cases):
